@@ -70,6 +70,8 @@ THEOREMS = [
     "Verif.C17.roundtrip_twice",
     "Verif.C17.sumSignal_spec",
     "Verif.C17.sumSignal_negative_stop_wraps",
+    "Verif.C17.centroid_offset_spec",
+    "Verif.C17.centroid_true_centre",
 ]
 RULE = (
     "corpus (F4: one single-node track, three delimiters; F8: kbp-calibrated and uncalibrated kymograph saved with "
@@ -531,6 +533,15 @@ def _impl(case, partial):
             return [errname(e)]
         st = B.group_state(r)
         return [with_aux(enc_times_md(st), {"state": state_json(st), "orig": state_json(prep["state0"])})]
+    if kind == "centroid":
+        # the numerical core: refined coordinates without bias correction (model: convolution moments + pixel walk)
+        prep = prepare(case)
+        try:
+            r = lk.refine_tracks_centroid(prep["group"], track_width=case["width"], bias_correction=False)
+        except Exception as e:
+            return [errname(e)]
+        st = B.group_state(r)
+        return [with_aux(enc_times_coords(st), {"state": state_json(st), "orig": state_json(prep["state0"])})]
     if kind == "refine2":
         # composition: refining the refined tracks once more (refine_refine_span)
         prep = prepare(case)
@@ -552,6 +563,19 @@ def _impl(case, partial):
         src = B.group_state(kymotrack.KymoTrackGroup([tr.interpolate() for tr in g])) if case["missing"] else prep["state0"]
         return [with_aux(enc_times_md(st), {"state": state_json(st), "orig": state_json(prep["state0"]), "src": state_json(src)})]
     raise ValueError(kind)
+
+
+def enc_times_coords(state):
+    t = "[" + ";".join(",".join(str(int(v)) for v in tr["t"]) for tr in state) + "]"
+    c = "[" + ";".join(",".join(enc_rat(v) for v in tr["c"]) for tr in state) + "]"
+    return f"{t} {c}"
+
+
+def enc_image_rat(image):
+    return "[" + ";".join(",".join(enc_rat(float(v)) for v in image[:, t]) for t in range(image.shape[1])) + "]"
+
+
+CENTROID_EPS = 1e-7  # refine_peak_based_on_moment(eps=1e-7): its default, not overridden by refine_tracks_centroid
 
 
 def enc_times_md(state):
@@ -646,6 +670,9 @@ def ops(case):
         return ["c17.refine " + enc_group(prep["state0"])]
     if kind == "refine2":
         return ["c17.refine2 " + enc_group(prep["state0"])]
+    if kind == "centroid":
+        h = int(np.ceil(case["width"] / info["pixelsize"])) // 2  # _to_half_kernel_size on the same doubles
+        return [f"c17.centroid {h} {enc_rat(CENTROID_EPS)} {enc_image_rat(prep['image'])} " + enc_group(prep["state0"])]
     if kind == "gauss":
         kymotrack, _ = _kt()
         skip = "T" if case["strategy"] == "skip" else "F"
@@ -698,6 +725,14 @@ def agree(case, i, ia, ma):
             ea, _, ga = ia.partition(" ")
             em, _, gm = ma.partition(" ")
             return ea == em and same_group(dec_group(ga), dec_group(gm), TOL_EDIT, md_exact=False, md_tol=md_tol)
+        if kind == "centroid":
+            ta, ca = ia.split(" ")
+            tm, cm = ma.split(" ")
+            if ta != tm:
+                return False
+            xs = [_rat(x) for r in ca[1:-1].split(";") for x in r.split(",")]
+            ys = [_rat(x) for r in cm[1:-1].split(";") for x in r.split(",")]
+            return len(xs) == len(ys) and all(abs(x - y) <= Fraction(TOL_EDIT) * (abs(y) + 1) for x, y in zip(xs, ys))
         if kind in ("refine", "refine2", "gauss"):
             ta, mda = ia.split(" ")
             tm, mdm = ma.split(" ")
@@ -770,7 +805,7 @@ def oracle(case, ia):
         return None if got == exp else f"photon-counts: sampled {got[:8]}, the sum over the {2 * case['w'] + 1} pixels around each node is {exp[:8]}"
     if kind == "prog":
         return oracle_prog(case, ia)
-    if kind == "refine":
+    if kind in ("refine", "centroid"):
         return oracle_refine(case, ia)
     if kind == "refine2":
         return oracle_refine2(case, ia)
@@ -1168,6 +1203,8 @@ def nontrivial(case, ia):
     if kind == "prog":
         st = aux.get("states", [])
         return any(x != y for x, y in zip(st, st[1:])) or "Error" in a
+    if kind == "centroid":
+        return True
     if kind in ("refine", "refine2", "gauss"):
         return bool(case.get("edge")) or len(case["tracks"]) >= 2 or any(len(tr["t"]) < tr["t"][-1] - tr["t"][0] + 1 for tr in case["tracks"])
     return False
@@ -1184,7 +1221,7 @@ def tags(case, r):
 
 def shrink(case):
     kind = case["kind"]
-    if kind in ("rt", "refine", "refine2", "gauss", "prog"):
+    if kind in ("rt", "refine", "refine2", "centroid", "gauss", "prog"):
         trs = case.get("tracks", [])
         refs = set()
         for op in case.get("ops", []):
@@ -1579,6 +1616,36 @@ def cases(tier, rng):
     for i in range(N):
         sub = r.fork(i)
         yield gen_refine_case(sub, i, "refine")
+    # centroid core without bias correction: spots in the interior, spots next to an image edge (zero padding, clamping),
+    # and random photon-count images (windows with no counts at all, several maxima)
+    N = 30 if quick else 300
+    r = rng.fork("c17-centroid")
+    for i in range(N):
+        sub = r.fork(i)
+        which = sub.randint(0, 2)
+        if which == 0:
+            c = gen_refine_case(sub, i, "refine")
+        elif which == 1:
+            c = gen_edge_case(sub, i, "refine")
+        else:
+            n_lines, n_pixels = sub.randint(6, 20), sub.randint(8, 24)
+            k = {"route": "array", "cal": sub.choice(["um", "pixel"]), "n_lines": n_lines, "n_pixels": n_pixels, "img_seed": sub.randint(0, 10**6), "px_um": 0.1, "lt": 0.125}
+            tracks = []
+            for n in range(sub.randint(1, 3)):
+                t, cs = B.random_track(sub, n_lines, n_pixels, max_points=8, gap_chance=0.4)
+                tracks.append({"t": t, "c": cs, "md": sub.choice([None, 0.25]), "hw": None})
+            px = 0.1 if k["cal"] == "um" else 1.0
+            hk = sub.randint(1, 3)  # half kernel 1 only where 3 pixels is an exact double (validation: width >= 3 pixels)
+            width = 3.0 if (hk == 1 and k["cal"] == "pixel") else px * (2 * max(hk, 2) + 1) * 0.999
+            c = {"stream": "random", "kind": "refine", "k": k, "tracks": tracks, "width": width, "subseed": i}
+        # keep the rounding of the interpolated coordinate to a pixel away from ties (float vs exact arithmetic)
+        npx = c["k"]["n_pixels"]
+        for tr in c["tracks"]:
+            tr["c"] = [min(npx - 1.0, max(0.0, x + sub.uniform(0.003, 0.04))) for x in tr["c"]]
+        c["kind"], c["bias"] = "centroid", False
+        if which != 0:
+            c["assert_truth"] = False
+        yield c
     N = 15 if quick else 100
     r = rng.fork("c17-refine2")
     for i in range(N):
@@ -1796,6 +1863,7 @@ def extra_coverage(results):
         d[str(key)] = d.get(str(key), 0) + 1
 
     single_row = 0
+    walk = {}
     winc = {}
     hdrk = {}
     skipped = {}
@@ -1823,6 +1891,14 @@ def extra_coverage(results):
                 for x in tr["c"]:
                     lo, hi = int(x + off) - w < 0, int(x + off) + w > npx - 1
                     bump(winc, "clipped-both-sides" if lo and hi else "clipped-at-first-pixel" if lo else "clipped-at-last-pixel" if hi else "inside")
+        if c["kind"] == "centroid" and not r["impl"][0].split(" ## ")[0].endswith("Error"):
+            aux = split_aux(r["impl"][0])[1]
+            for o, st in zip(aux.get("orig", []), aux.get("state", [])):
+                got = dict(zip(st["t"], st["c"]))
+                for t, x in zip(o["t"], o["c"]):
+                    if t in got:
+                        d = abs(got[t] - round(x))
+                        bump(walk, "stayed-on-the-start-pixel" if d <= 0.5 else "walked-1-pixel" if d <= 1.5 else "walked-2+-pixels")
         if c["kind"] == "hdr":
             bump(hdrk, c["variant"] + ":" + ("error" if r["impl"][0].split(" ## ")[0].endswith("Error") else "imported"))
         if c["kind"] == "rt":
@@ -1846,7 +1922,7 @@ def extra_coverage(results):
                     bump(mdk, "representable")
                 else:
                     bump(mdk, "not-representable-with-6-decimals")
-        if c["kind"] in ("refine", "refine2", "gauss"):
+        if c["kind"] in ("refine", "refine2", "centroid", "gauss"):
             where = {"lo": "first-pixel-edge", "hi": "last-pixel-edge"}.get(c.get("edge"), "interior")
             bump(refk, f"{c['kind']}:{where}:{'centre-asserted' if c.get('assert_truth') else 'lines-only'}")
             if c["kind"] == "gauss" and c.get("edge") == "lo":
@@ -1860,7 +1936,7 @@ def extra_coverage(results):
         "case_kinds": kinds, "error_kinds": errs, "roundtrip_delimiters": delims, "roundtrip_sampling_widths": sws,
         "roundtrip_calibrations": cals, "roundtrip_kymo_routes": routes, "roundtrip_group_sizes": sizes,
         "roundtrip_longest_track": nodes, "roundtrip_single_row_files": single_row, "roundtrip_minimum_durations": mdk,
-        "header_variants": hdrk, "sampling_windows": winc, "program_ops": opsk, "refinement_spot_places": refk, "dropped_for_margin": 0,
+        "header_variants": hdrk, "sampling_windows": winc, "centroid_pixel_walk": walk, "program_ops": opsk, "refinement_spot_places": refk, "dropped_for_margin": 0,
         "private_ties": {k: dict(v) for k, v in sorted(B.PRIVATE_TIES.items())},
         "private_ties_note": "how often each private pylake member was reached directly / replaced by its public twin / "
                              "rediscovered under another name / unreachable (the case is then skipped as '?')",
